@@ -3,6 +3,7 @@ package checks
 import (
 	"fmt"
 	"math/rand"
+	"os"
 	"regexp"
 	"strings"
 	"time"
@@ -86,11 +87,20 @@ func C13(e *core.Env) int {
 	}
 	m.GenTimeout = 30 * time.Second
 	m.Generate(bin)
+	vanished := 0
 	for _, cr := range m.Cases {
 		c := cr.Case
 		rep.Evaluations++
 		kind := c.Features["fuzz"]
 		g := cr.Gen
+		if _, serr := os.Stat(cr.Dir); serr != nil {
+			// the scratch tree was removed under the running check (environment, not goverter): nothing to judge
+			if vanished == 0 {
+				rep.Inconclusive = append(rep.Inconclusive, "scratch directory "+cr.Dir+" vanished during the run: "+serr.Error())
+			}
+			vanished++
+			continue
+		}
 		tags := append(caseTags(c), "fuzz:"+kind)
 		mk := func(k, sum string) *core.Viol {
 			return &core.Viol{Kind: k, Case: c.Name, Summary: sum, Detail: fmt.Sprintf("input: %s\nargs: %v\nexit=%d signal=%s timeout=%v\nstderr:\n%s", c.Note, g.Args, g.Exit, g.Signal, g.TimedOut, head(g.Stderr, 4000)), Dir: cr.Dir, Tags: tags}
